@@ -205,6 +205,10 @@ func encodeTop(vc *VC, fn *ssa.Function, d *Decl) []inputVar {
 			fr.bindVals[n+"$called"] = sval{t: "false", typ: boolT}
 		}
 	}
+	// `claim[label] expr`: a lemma over the spec functions, to be valid under the preconditions and axioms alone
+	for _, c := range d.Get("claim") {
+		vc.oblige("lemma", c.Label, "true", fr.specEnvAt(st).trBool(c.E), "claim "+c.Text, fr.props, "")
+	}
 	vc.oblige("cover-pre", "", "true", "false", "the preconditions, type invariants and axioms are satisfiable", []string{"vacuity"}, "").Expect = "sat"
 	fr.encodeBody(st, "true")
 	// an at-call clause that matched no call of the function pins nothing: the call it speaks about is gone
